@@ -1,4 +1,5 @@
 import Lmd.Props.C12
+import Lmd.Props.C12Seq
 #print axioms Lmd.C12.exEntryTable
 #print axioms Lmd.C12.change_detected
 #print axioms Lmd.C12.no_monotone_counterexample
@@ -9,3 +10,16 @@ import Lmd.Props.C12
 #print axioms Lmd.C12.lists_follow_tables
 #print axioms Lmd.C12.lists_follow
 #print axioms Lmd.C12.lists_follow_downtimes
+#print axioms Lmd.C12Seq.sync_sequence_exact
+#print axioms Lmd.C12Seq.sync_sequence_origin
+#print axioms Lmd.C12Seq.sync_sequence_values
+#print axioms Lmd.C12Seq.sync_sequence_history_independent
+#print axioms Lmd.C12Seq.sync_reply_order
+#print axioms Lmd.C12Seq.sync_sequence_reply_order
+#print axioms Lmd.C12Seq.entryStep_comments
+#print axioms Lmd.C12Seq.entryStep_downtimes
+#print axioms Lmd.C12Seq.lists_follow_sequence
+#print axioms Lmd.C12Seq.lists_follow_each_step
+#print axioms Lmd.C12Seq.removed_id_in_no_list
+#print axioms Lmd.C12Seq.added_id_in_its_object_only
+#print axioms Lmd.C12Seq.entries_round_is_entryStep
